@@ -9,21 +9,59 @@ COMPONENTS = {
 }
 
 PROPS = {
-    "C01": {"families": [("mixed", 3), ("faultfree", 1)], "judge": ["C01"], "quick_s": 10, "thorough_s": 600},
-    "C02": {"families": [("faultfree", 1)], "judge": ["C02"], "quick_s": 10, "thorough_s": 600},
-    "C03": {"families": [("c03", 3), ("mixed", 1)], "judge": ["C03"], "quick_s": 10, "thorough_s": 600, "level": "fault_enumeration"},
-    "C04": {"families": [("c04", 1)], "judge": ["C04"], "quick_s": 10, "thorough_s": 600},
-    "C05": {"families": [("mixed", 1), ("faultfree", 1)], "judge": ["C05"], "quick_s": 10, "thorough_s": 600},
-    "C06": {"families": [("c06", 1)], "judge": ["C06"], "quick_s": 10, "thorough_s": 600},
-    "C07": {"families": [("faultfree", 1)], "judge": ["C07"], "quick_s": 10, "thorough_s": 600},
-    "C08": {"families": [("mixed", 1), ("faultfree", 1)], "judge": ["C08"], "quick_s": 10, "thorough_s": 600},
-    "C09": {"families": [("mixed", 1), ("faultfree", 1)], "judge": ["C09"], "quick_s": 10, "thorough_s": 600, "crash_is_violation": True},
-    "C10": {"families": [("c10", 2), ("mixed", 1)], "judge": ["C10"], "quick_s": 10, "thorough_s": 600},
-    "C11": {"families": [("c11", 1)], "judge": ["C11"], "quick_s": 10, "thorough_s": 600, "crash_is_violation": True},
-    "C12": {"families": [("c12", 1)], "judge": ["C12"], "quick_s": 10, "thorough_s": 600},
-    "C13": {"families": [("c13", 1)], "judge": ["C13"], "quick_s": 10, "thorough_s": 600, "crash_is_violation": True},
-    "C14": {"families": [("c14sim", 1)], "judge": ["C14"], "quick_s": 6, "thorough_s": 300, "post": "c14_differential"},
-    "C17": {"families": [("c17lib", 1), ("faultfree", 1), ("mixed", 1)], "judge": ["C17"], "quick_s": 10, "thorough_s": 600},
-    "C18": {"families": [("mixed", 1), ("faultfree", 1)], "judge": ["C18"], "quick_s": 10, "thorough_s": 600},
-    "C19": {"families": [("mixed", 1), ("faultfree", 1)], "judge": ["C19"], "quick_s": 10, "thorough_s": 600},
+    "C01": {"families": [("mixed", 3), ("faultfree", 1)], "judge": ["C01"], "quick_s": 20, "thorough_s": 600},
+    "C02": {"families": [("faultfree", 1)], "judge": ["C02"], "quick_s": 20, "thorough_s": 600},
+    "C03": {"families": [("c03", 3), ("mixed", 1)], "judge": ["C03"], "quick_s": 20, "thorough_s": 600, "level": "fault_enumeration"},
+    "C04": {"families": [("c04", 1)], "judge": ["C04"], "quick_s": 20, "thorough_s": 600},
+    "C05": {"families": [("mixed", 1), ("faultfree", 1)], "judge": ["C05"], "quick_s": 20, "thorough_s": 600},
+    "C06": {"families": [("c06", 1)], "judge": ["C06"], "quick_s": 20, "thorough_s": 600},
+    "C07": {"families": [("faultfree", 1)], "judge": ["C07"], "quick_s": 20, "thorough_s": 600},
+    "C08": {"families": [("c08", 2), ("mixed", 1), ("faultfree", 1)], "judge": ["C08"], "quick_s": 20, "thorough_s": 600},
+    "C09": {"families": [("mixed", 1), ("faultfree", 1)], "judge": ["C09"], "quick_s": 20, "thorough_s": 600, "crash_is_violation": True},
+    "C10": {"families": [("c10", 2), ("mixed", 1)], "judge": ["C10"], "quick_s": 20, "thorough_s": 600},
+    "C11": {"families": [("c11", 1)], "judge": ["C11"], "quick_s": 20, "thorough_s": 600, "crash_is_violation": True},
+    "C12": {"families": [("c12", 1)], "judge": ["C12"], "quick_s": 20, "thorough_s": 600},
+    "C13": {"families": [("c13", 1)], "judge": ["C13"], "quick_s": 20, "thorough_s": 600, "crash_is_violation": True},
+    "C14": {"families": [("c14sim", 1)], "judge": ["C14"], "quick_s": 12, "thorough_s": 300, "post": "c14_differential"},
+    "C17": {"families": [("c17lib", 1), ("faultfree", 1), ("mixed", 1)], "judge": ["C17"], "quick_s": 20, "thorough_s": 600},
+    "C18": {"families": [("mixed", 1), ("faultfree", 1)], "judge": ["C18"], "quick_s": 20, "thorough_s": 600},
+    "C19": {"families": [("c08", 2), ("mixed", 1), ("faultfree", 1)], "judge": ["C19"], "quick_s": 20, "thorough_s": 600},
+}
+
+
+# C20: free-run mode under the race detector (custom command)
+PROPS["C20"] = {"custom": "c20_race", "families": [("c20", 1)], "judge": ["C20"], "quick_s": 40, "thorough_s": 900, "level": "other"}
+
+NOT_APPLICABLE = [
+    {"property_id": "C15", "reason": "pure function of one error value (IsPermanentError/IsTransientError): no schedule, clock, fault or history in it, so deterministic simulation has nothing to decide; its consequence (a deposed leader must not keep retrying on the real client's conflict errors) is exercised by C03/C13, which run the heartbeat against the real nats.go error values"},
+    {"property_id": "C16", "reason": "pure function of the configuration struct evaluated before anything is started (validateConfig): input-quantified, no concurrency, time, I/O or multi-party behaviour; every simulated plan draws its configuration from the valid lattice and fails loudly if NewElection rejects it, but that samples acceptance only and is not claimed"},
+]
+
+_common_note = ("trusted base: the reference store model (sim/store.go; its agreement with a real nats-server/nats.go is sampled by C14's differential half), the synctest fake clock, "
+                "the toolchain overlays that make select/timer/context-child order and math/rand/v2 seeded, the stubbed layers below nats.KeyValue; interleavings finer than simulator points "
+                "(store-op phases, watch deliveries, API calls, notifications, timers, verifYield sites, a yield before every lock acquisition) are not explored; a clean batch is evidence over the plans run, not proof")
+
+def _t(level_text, technique, design_ref, note=_common_note):
+    return {"level_text": level_text, "technique": technique, "design_ref": design_ref, "level_note": note}
+
+MANIFEST_TEXT = {
+    "C01": _t("seeded search over plans (2-5 instances, 1-2 groups, lifecycle actions, all store fault classes, yields); history check of every successful mutation in the complete store log against the four legitimate kinds", "deterministic simulation + history check of the store mutation log", "DESIGN.md 6/C01"),
+    "C02": _t("seeded search over fault-free plans with every operation below H/2; invariant at every leadership-flag change (observed inside the library's critical section) and coverage of every term by a live record with the claimant's id and token", "deterministic simulation + invariant at every flag change + term/record timeline check", "DESIGN.md 6/C02"),
+    "C03": _t("fault position (heartbeat attempt 0-8) x fault kind (10 kinds) x H class enumerated by the generator with random latencies per cell, plus mixed-fault exploration; both clauses judged on recorded attempt completions, the numeric bounds only where their antecedent holds", "deterministic simulation with enumerated fault position/kind + history check of heartbeat attempts", "DESIGN.md 6/C03"),
+    "C04": _t("seeded search: validation calls from client goroutines racing with takeover, expiry, deletion and outsider writes of 35 payload shapes, faults on the read, context deadlines; every 'true' must be backed by a record version in the call interval, every 'false' of ValidateTokenOrDemote by a demotion", "deterministic simulation + interval check against the record timeline", "DESIGN.md 6/C04"),
+    "C05": _t("seeded search over multi-term histories; every acquisition's token checked for freshness over the whole bucket history, every refresh for identity, OnPromote/Token()/Status() against the record at promotion and at quiescent points", "deterministic simulation + history check of record versions", "DESIGN.md 6/C05"),
+    "C06": _t("seeded search: leader removed six ways at an arbitrary step, watch events dropped/held (including all), transient Watch/Get/Create failures; every vacancy with a healthy candidate bounded by 500ms+100ms+latencies, and a leader must exist after a fault-free tail", "deterministic simulation + bounded-liveness check over vacancy intervals", "DESIGN.md 6/C06"),
+    "C07": _t("seeded search over fault-free plans with adversarial-in-time watch deliveries and concurrent acquisition rounds; no falling edge before the instance's own stop, record continuously the term's", "deterministic simulation + term stability check", "DESIGN.md 6/C07"),
+    "C08": _t("seeded search incl. a family with coinciding demotion causes (aligned tickers, constant latencies) and preemption before every lock acquisition; per-instance state machine over claim edges and callback entries", "deterministic simulation + alternation state machine over the callback log", "DESIGN.md 6/C08"),
+    "C09": _t("seeded search over stop variants at arbitrary times incl. inside in-flight operations, plus worker-crash/deadlock detection; after the return of a successful stop: no claim, no OnPromote, no new store operation, no library goroutine left, time bounds, DeleteKey effect", "deterministic simulation + post-stop silence check + goroutine dump + watchdog", "DESIGN.md 6/C09"),
+    "C10": _t("safety on every replacement under the full fault set; promptness/stability in a fault-free family (latency and watch delay <= H/10) over sampled priority/flag assignments and start orders", "deterministic simulation + mutation-log check + bounded-liveness check", "DESIGN.md 6/C10"),
+    "C11": _t("seeded search over notification sequences on a timing lattice around the grace period, with partitions, ownership changes and stops; (a) never before G since the latest notification, (b) exactly at expiry, (c) reconnect verification outcome vs. record, plus deadlock/panic detection", "deterministic simulation + timing checks on the fake clock + watchdog", "DESIGN.md 6/C11"),
+    "C12": _t("seeded search over scripted health sequences (streaks m-1, m, m+1 around term boundaries, slow results), thresholds 1-6 and default; reference counter run over the health-call log", "deterministic simulation + reference counter", "DESIGN.md 6/C12"),
+    "C13": _t("seeded search: outsider writes of 35 payload shapes (empty, truncated, wrong types, 1 MiB, 12000-deep, foreign well-formed) and deletes at arbitrary steps against followers, leaders and takeover candidates; crash/deadlock/recursion/operation-storm detection, promotion only on an own successful write, tampered leader demoted within the C03 bound", "deterministic simulation + crash/recursion detectors + history checks", "DESIGN.md 6/C13"),
+    "C14": _t("(a) simulated: the library's real adapter over scripted nats.KeyWatcher/KeyValue with generated consumer patterns (Updates() once / every iteration / several goroutines), producer timing and Stop; (b) NOT simulation, reported separately: seeded operation sequences through the real adapter against a real embedded nats-server compared step by step with the reference store", "deterministic simulation of the adapter + differential model-conformance sampling", "DESIGN.md 6/C14"),
+    "C17": _t("(i) RetryWithBackoff and (ii) CircuitBreaker under the fake clock with generated outcome scripts, cancellation times and call times around the cooldown edge, gaps compared exactly with the formula evaluated on the jitter draw the harness supplied; (iii) every acquisition round in election plans; the pure CalculateBackoff clause is input-generated, not simulation, and reported separately", "deterministic simulation with supplied jitter draws + exact gap check", "DESIGN.md 6/C17"),
+    "C18": _t("rides on mixed and fault-free plans: Status() sampled at every quiescent point (after synctest.Wait) and the metrics stream checked inside the library's critical sections", "deterministic simulation + sampling at quiescent points", "DESIGN.md 6/C18"),
+    "C19": _t("seeded search with OnPromote callbacks that block on the context; for every term the moment Done() fires is compared with the term's falling edge", "deterministic simulation + per-term context watcher", "DESIGN.md 6/C19"),
+    "C20": _t("runtime monitoring, not deterministic simulation: the same generator, stub store, fake clock and fault injection, but goroutines run freely (GOMAXPROCS=16) under the Go race detector with observers off; reports normalised to the racing field/function pair", "race detector over seeded free-run scenarios", "DESIGN.md 6/C20",
+               "trusted base: the Go race detector (happens-before based, no false positives; misses races whose two accesses never both execute in a run); replay is the plan plus the race report and reproduces with a rate, not exactly; harness-side races are filtered by frame"),
 }
